@@ -70,6 +70,36 @@ CHECKS.update({
    note=SYSNOTE,
    tech="TLA+ contract monitor + TLC trace validation of real executions under a deterministic scheduler"),
 })
+CHECKS.update({
+ "C12": dict(engine="tlc+h_fmt_pattern", cat=MC, ref="4 C12",
+   text="TLC checks that the transcription of PatternFormatter (fmt-string rewrite, slot table, format, the used part of fmt), of the backend's line "
+        "splitting / runtime-metadata split and of MacroMetadata satisfies the contract (PatternContract.tla) for every pattern, message and source "
+        "location within the bounds; the attribute tables of the transcription are extracted from the compiled code; every enumerated case plus seeded "
+        "random larger patterns is executed on the real PatternFormatter / frontend+ManualBackendWorker and each recorded execution is judged by TLC "
+        "against the same contract instantiated on real strings (TracePattern.tla)",
+   note="exhaustive in the model only within <=3/4 items (quick) resp. <=4..6 items (thorough), messages <=5/7 symbols, 3 of 16 attributes with the full "
+        "literal/spec alphabet and all 16 via rotating 6-subsets; deeper patterns by random walks; real code observed on exported + seeded cases only",
+   tech="TLA+ model checking + behaviour replay + TLC validation of recorded executions (string-level contract)"),
+ "C13": dict(engine="tlc+h_time", cat=MC, ref="4 C13",
+   text="TLC proves on StrTime.tla (StringFromTime cache + TimestampFormatter split/fraction transcribed, recalculation grids and ctor behaviour "
+        "extracted from the code by probing) that no call sequence over the boundary instants of tz-database scenarios ever shows a field differing "
+        "from the reference of that instant (closed state graph, any length), and sweeps ctor/fraction statically; every exported sequence, a generated "
+        "pattern family (fractional specifier at every position) and seeded random sequences 2001..2100 are executed on the real TimestampFormatter "
+        "under TZ=<zone>; TLC validates each recorded execution against the contract (rendered = libc strftime + fraction; rejection rule)",
+   note="model exhaustive for the generated boundary sets only (14/110 scenarios, 9/22 zones); real code observed on exported + generated + random "
+        "executions (54k quick / 975k thorough); glibc C locale; text equality is libc's oracle carried in the trace; 3 known findings",
+   tech="TLA+ model checking + behaviour replay + TLC trace validation of real executions"),
+ "C19": dict(engine="tlc+h_named", cat=MC, ref="4 C19",
+   text="TLC enumerates every template up to the bound (NamedArgs.tla: _contains_named_args, the brace scanner, the template cache and the join/split "
+        "transcribed literally, scanner variant and separator extracted from the code) and checks the transcribed scanner against fmt's reference "
+        "grammar, cache order independence and join/split round trip; every exported template goes through the real static scanner (prediction "
+        "compared) and end to end through frontend/queue/backend into a recording sink and the real JsonFileSink, and each recorded execution is "
+        "validated by TLC against the contract (TraceNamedArgs.tla)",
+   note="templates <=7 (quick) / <=8 plus <=9 over 7 symbols (thorough) exhaustive in the model; real code run on exported templates <=6/7, composites, "
+        "fixed and LOGJ_ macro cases with std::string/long long values, <=3 arguments; nested {a:{b}}, positional fields mixed with names are outside "
+        "the contract; 2 known findings",
+   tech="TLA+ model checking + behaviour replay + TLC trace validation of real executions"),
+})
 PENDING = "check under construction in this round (not yet claimed)"
 
 man = {"version": 1, "setup_cmd": "cd /verif && ./setup.sh",
@@ -82,6 +112,9 @@ man = {"version": 1, "setup_cmd": "cd /verif && ./setup.sh",
             "kind_free_text": "TLA+ explicit-state model checker: exhaustive check of spec/*.tla, behaviour export, trace validation"},
            {"name": "h_sys", "path": "/verif/harness/h_sys.cpp", "serves_properties": [p for p in sorted(CHECKS) if "h_sys" in CHECKS[p]["engine"]],
             "kind_free_text": "script-driven harness over the real quill frontend/backend under a deterministic token scheduler with virtual time; ndjson traces"},
+           {"name": "h_fmt_pattern", "path": "/verif/harness/h_fmt_pattern.cpp", "serves_properties": ["C12"], "kind_free_text": "real PatternFormatter / frontend+manual backend driven by TLC-exported cases"},
+           {"name": "h_time", "path": "/verif/harness/h_time.cpp", "serves_properties": ["C13"], "kind_free_text": "real TimestampFormatter under TZ=<zone> with interposed strftime"},
+           {"name": "h_named", "path": "/verif/harness/h_named.cpp", "serves_properties": ["C19"], "kind_free_text": "real named-args scanner and end-to-end JSON sink runs"},
            {"name": "h_spsc", "path": "/verif/harness/h_spsc.cpp", "serves_properties": [p for p in sorted(CHECKS) if "h_spsc" in CHECKS[p]["engine"]],
             "kind_free_text": "real SPSC queues executed on a shim std::atomic implementing the spec's release/acquire model, with payload race detector"}],
        "checks": [], "not_applicable": [],
